@@ -131,6 +131,13 @@ func runDB(p *prog.Program, dir string) {
 			}
 		case "close":
 			err = db.Close()
+			if err != nil {
+				// a Close that fails (only possible with injected I/O failures) returns early and leaves the flusher and
+				// compactor of this handle running; opening the next session beside them would put two live handles
+				// on one directory, which no application may do - it stops instead
+				mark(prog.RetMarker(op.Index, res(err)))
+				os.Exit(5)
+			}
 		case "put":
 			err = db.PutBytes(p.KeyOf(op.Step), p.ValueOf(op.Step, op.Index))
 		case "delete":
